@@ -24,7 +24,7 @@ LEVEL_TEXT = (
     "injective for the alphabet in use. The numerical value of a loss and the array pipelines (FFT, moments, entropies) "
     "are not decided."
 )
-TECHNIQUE = "option-plumbing dataflow + rational normal forms against a published-formula table + radix/alphabet rule"
+TECHNIQUE = "option-plumbing dataflow + rational normal forms against a published-formula table (path-sensitive forward substitution for MSM and the likelihood pipeline) + radix/alphabet rule"
 
 
 def run(ctx: Context) -> None:
@@ -273,16 +273,22 @@ def r3_fourier(ctx: Context) -> None:
                   "sum of |mean filtered sim spectrum - filtered real spectrum|^2", f"distance differs: `{txt[:240]}`", f, r)
     # members: mean over axis 0 of the filtered spectra, each rfft(s, axis=0) then frequency_filter(., self.f)
     loops = [s for s in walk_scope(f.node) if isinstance(s, ast.For) and src(s.iter) == sim]
-    ctx.floor("R3", "member loop in FourierLoss", len(loops), 1)
-    lp = loops[0]
-    m = lp.target.id if isinstance(lp.target, ast.Name) else "s"
-    apps = [c for c in ast.walk(lp) if isinstance(c, ast.Call) and isinstance(c.func, ast.Attribute) and c.func.attr == "append"]
+    comps = [c for c in ast.walk(f.node) if isinstance(c, (ast.ListComp, ast.GeneratorExp)) and len(c.generators) == 1 and src(c.generators[0].iter) == sim and not c.generators[0].ifs]
+    ctx.floor("R3", "member loop / comprehension in FourierLoss", len(loops) + len(comps), 1)
+    lp = loops[0] if loops else comps[0]
+    tgt = lp.target if loops else comps[0].generators[0].target
+    m = tgt.id if isinstance(tgt, ast.Name) else "s"
+    apps = [c for c in ast.walk(lp) if isinstance(c, ast.Call) and isinstance(c.func, ast.Attribute) and c.func.attr == "append"] if loops else []
     body_env = {}
     for s in ast.walk(lp):
         if isinstance(s, ast.Assign) and isinstance(s.targets[0], ast.Name):
             body_env.setdefault(s.targets[0].id, []).append(s.value)
-    ok = len(apps) == 1
-    if ok:
+    ok = len(apps) == 1 or not loops
+    if not loops:
+        # comprehension form: the element expression is the member's contribution
+        nn = normaliser(prog, f, inline_locals=False)
+        ok = str(nn.rat(comps[0].elt)) == str(nn.rat(parse_expr(f"self.frequency_filter(np.fft.rfft({m}, axis=0), self.f)")))
+    elif ok:
         e = apps[0].args[0]
         # expand sequential re-assignments of the same local
         chain = None
